@@ -1426,7 +1426,7 @@ pub proof fn lemma_block_original<'a, 's>(s: AState<'s>, b: Seq<ProguardRecord<'
 pub proof fn lemma_class_content_is_what_the_records_of_its_last_block_say<'s>(pre: Seq<ProguardRecord<'s>>, b: Seq<ProguardRecord<'s>>, post: Seq<ProguardRecord<'s>>,
         init: bool, m: &'s str, a: &'s str)
     requires is_block(b), post.len() == 0 || is_class_rec(post[0]), no_class_named(post, block_key(b)), block_original(b)@.len() > 0,
-    ensures /*@L:mapper_content_of_a_class_is_one_entry_per_method_record_of_its_last_block_in_file_order:C01,C03*/ ({
+    ensures /*@L:mapper_content_of_a_class_is_one_entry_per_method_record_of_its_last_block_in_file_order:C01,C03,C04*/ ({
         let all = built(pre + b + post, init);
         let k = block_key(b);
         let aft = after_of(post, None, 0);
